@@ -22,6 +22,7 @@ type sysThing struct {
 	name string
 	sys  bool
 	vip  bool // has child-store data
+	ext  bool // has data in the extended child store
 }
 
 type sysModel struct{ things map[string]sysThing }
@@ -49,6 +50,9 @@ func (m *sysModel) Render() *dump.Tree {
 		if th.vip {
 			t.Ensure("root", "things", id, "vip").Values["rank"] = world.EncInt64(7)
 		}
+		if th.ext {
+			t.Ensure("root", "things", id, "ext").Values["level"] = world.EncInt64(9)
+		}
 	}
 	return t
 }
@@ -56,6 +60,7 @@ func (m *sysModel) Render() *dump.Tree {
 type sysScenario struct {
 	store *world.Store
 	vip   *world.Store // plain child store: the constraint must hold for operations routed through it as well
+	ext   *world.Store // extended child store (it shows every entity of the parent store)
 	ids   []string
 	ops   []explore.Op
 }
@@ -72,6 +77,9 @@ func newSysScenario() *sysScenario {
 	sc.vip = world.NewStore(&world.Spec{Parent: sc.store, ChildPath: []string{"vip"}, Ext: true, Fields: []world.Field{
 		{Name: "name", Kind: world.KString}, {Name: "title", Kind: world.KReqString}, {Name: "rank", Kind: world.KInt64P, Child: true}}})
 	sc.store.GrantSymbols(sc.vip)
+	sc.ext = world.NewStore(&world.Spec{Parent: sc.store, ChildPath: []string{"ext"}, Ext: true, Extended: true, Fields: []world.Field{
+		{Name: "name", Kind: world.KString}, {Name: "title", Kind: world.KReqString}, {Name: "level", Kind: world.KInt64P, Child: true}}})
+	sc.store.GrantSymbols(sc.ext)
 	sc.buildOps()
 	return sc
 }
@@ -82,6 +90,7 @@ func (sc *sysScenario) InitDb(db *boltz.DbImpl) error {
 		h := &errorz.ErrorHolderImpl{}
 		sc.store.InitializeIndexes(ctx.Tx(), h)
 		sc.vip.InitializeIndexes(ctx.Tx(), h)
+		sc.ext.InitializeIndexes(ctx.Tx(), h)
 		return h.GetError()
 	})
 }
@@ -112,7 +121,7 @@ func (sc *sysScenario) Normalize(t *dump.Tree) *dump.Tree {
 }
 
 func (sc *sysScenario) rec(id, name string, sys bool) *world.Rec {
-	r := world.NewRec("things", id).With("name", name).With("title", "T-"+name).With("rank", int64(7))
+	r := world.NewRec("things", id).With("name", name).With("title", "T-"+name).With("rank", int64(7)).With("level", int64(9))
 	r.IsSystem = sys
 	return r
 }
@@ -142,11 +151,21 @@ func (sc *sysScenario) buildOps() {
 	}
 	cn := map[bool]string{true: "SYSTEM-ctx", false: "ordinary-ctx"}
 	for _, id := range sc.ids {
-		for _, via := range []string{"things", "vip"} {
+		for _, via := range []string{"things", "vip", "ext"} {
 			via := via
 			store := sc.store
 			if via == "vip" {
 				store = sc.vip
+			}
+			if via == "ext" {
+				store = sc.ext
+			}
+			// has the entity data in the child store the operation goes through?
+			hasChildData := func(ctx boltz.MutateContext, id string) bool {
+				return via == "things" || store.GetEntityBucket(ctx.Tx(), []byte(id)) != nil
+			}
+			modelHas := func(th sysThing) bool {
+				return via == "things" || (via == "vip" && th.vip) || (via == "ext" && th.ext)
 			}
 			for _, system := range []bool{false, true} {
 				id, system := id, system
@@ -156,7 +175,7 @@ func (sc *sysScenario) buildOps() {
 						sc.ops = append(sc.ops, explore.Op{
 							Name: fmt.Sprintf("create@%s(%s,name=%s,isSystem=%v)@%s", via, id, name, flag, cn[system]),
 							Do: func(ctx boltz.MutateContext) error {
-								if via == "vip" && sc.store.IsEntityPresent(ctx.Tx(), id) {
+								if via != "things" && sc.store.IsEntityPresent(ctx.Tx(), id) {
 									return errSkip
 								}
 								return store.Create(ctxOf(system, ctx), sc.rec(id, name, flag))
@@ -164,7 +183,7 @@ func (sc *sysScenario) buildOps() {
 							Apply: func(mm explore.Model) []string {
 								m := mm.(*sysModel)
 								if _, ok := m.things[id]; ok {
-									if via == "vip" {
+									if via != "things" {
 										return []string{"skip"}
 									}
 									return []string{"exists"}
@@ -179,7 +198,7 @@ func (sc *sysScenario) buildOps() {
 								if errs != nil {
 									return errs
 								}
-								m.things[id] = sysThing{name: name, sys: flag, vip: via == "vip"}
+								m.things[id] = sysThing{name: name, sys: flag, vip: via == "vip", ext: via == "ext"}
 								return []string{"ok"}
 							},
 						})
@@ -199,6 +218,9 @@ func (sc *sysScenario) buildOps() {
 							sc.ops = append(sc.ops, explore.Op{
 								Name: fmt.Sprintf("%s@%s(%s,name=%s,isSystem=%v)@%s", label, via, id, name, flag, cn[system]),
 								Do: func(ctx boltz.MutateContext) error {
+									if via == "ext" && sc.store.IsEntityPresent(ctx.Tx(), id) && !hasChildData(ctx, id) {
+										return errSkip // an update through the extended store of an entity without data there is not specified
+									}
 									r := sc.rec(id, name, flag)
 									r.Migrate = migrate
 									return store.Update(ctxOf(system, ctx), r, checker)
@@ -206,6 +228,9 @@ func (sc *sysScenario) buildOps() {
 								Apply: func(mm explore.Model) []string {
 									m := mm.(*sysModel)
 									cur, ok := m.things[id]
+									if ok && via == "ext" && !cur.ext {
+										return []string{"skip"}
+									}
 									if !ok || (via == "vip" && !cur.vip) {
 										return []string{"notfound"}
 									}
@@ -220,7 +245,7 @@ func (sc *sysScenario) buildOps() {
 										return errs
 									}
 									// the flag is fixed at creation: an update never changes it
-									m.things[id] = sysThing{name: name, sys: cur.sys, vip: cur.vip}
+									m.things[id] = sysThing{name: name, sys: cur.sys, vip: cur.vip, ext: cur.ext}
 									return []string{"ok"}
 								},
 							})
@@ -230,7 +255,7 @@ func (sc *sysScenario) buildOps() {
 				sc.ops = append(sc.ops, explore.Op{
 					Name: fmt.Sprintf("delete@%s(%s)@%s", via, id, cn[system]),
 					Do: func(ctx boltz.MutateContext) error {
-						if via == "vip" && sc.store.IsEntityPresent(ctx.Tx(), id) && !sc.vip.IsEntityPresent(ctx.Tx(), id) {
+						if via != "things" && sc.store.IsEntityPresent(ctx.Tx(), id) && !hasChildData(ctx, id) {
 							return errSkip
 						}
 						return store.DeleteById(ctxOf(system, ctx), id)
@@ -241,7 +266,7 @@ func (sc *sysScenario) buildOps() {
 						if !ok {
 							return []string{"notfound"}
 						}
-						if via == "vip" && !cur.vip {
+						if !modelHas(cur) {
 							return []string{"skip"}
 						}
 						if cur.sys && !system {
